@@ -3,9 +3,9 @@ package props
 import (
 	"bytes"
 	"context"
-	"errors"
 	"encoding/base64"
 	"encoding/json"
+	"errors"
 	"fmt"
 	"io"
 	"net/http"
